@@ -34,6 +34,10 @@ macro_rules! registry {
             "C16" => dispatch!($action, props::c16::C16, $ctx, $path),
             "C17" => dispatch!($action, props::c17::C17, $ctx, $path),
             "C18" => dispatch!($action, props::c18::C18, $ctx, $path),
+            "C08" => dispatch!($action, props::c08::C08, $ctx, $path),
+            "C09" => dispatch!($action, props::c09::C09, $ctx, $path),
+            "C10" => dispatch!($action, props::c10::C10, $ctx, $path),
+            "C11" => dispatch!($action, props::c11::C11, $ctx, $path),
             _ => {
                 eprintln!("unknown property {}", $id);
                 2
